@@ -5,7 +5,7 @@
 # given checks (default: <PROP>) against a scratch copy of /repo with the patch applied
 # (selftest/mutant.sh) and files everything under /verif/seeded/<PROP>-<k>/.
 P=$1; K=$2; shift 2; CHECKS=${@:-$P}
-WT=/tmp/wt_$P; D=$WT/_deliver; OUT=/verif/seeded/$P-$K
+WT=${WTPREFIX:-/tmp/wt_}$P; D=$WT/_deliver; OUT=/verif/seeded/$P-${OUTK:-$K}
 [ -f $D/patch$K.diff ] || { echo "no patch $D/patch$K.diff"; exit 2; }
 cd $WT || exit 2
 git checkout -q -- . 2>/dev/null; rm -rf omaha-client/tests/_seeded_* mock-omaha-server/tests/_seeded_*
@@ -36,8 +36,9 @@ done
 python3 - "$P" "$K" "$CLEAN_OK" "$PATCHED_FAILS" "$SUITE_OK" "$NPASS" "$CAUGHT" "$DETAIL" "$CHECKS" <<'PY'
 import json,sys,os
 P,K,clean,pf,suite,npass,caught,detail,checks=sys.argv[1:10]
-out=f"/verif/seeded/{P}-{K}/meta.json"
-try: m=json.load(open(f"/tmp/wt_{P}/_deliver/meta{K}.json"))
+OUTK=os.environ.get("OUTK",K); WTP=os.environ.get("WTPREFIX","/tmp/wt_")
+out=f"/verif/seeded/{P}-{OUTK}/meta.json"
+try: m=json.load(open(f"{WTP}{P}/_deliver/meta{K}.json"))
 except Exception as e: m={"property":P,"summary":"(agent meta missing)"}
 m["breaks_property"]=P
 m["confirmed"]={"demo_passes_on_clean_tree":clean=="yes","demo_fails_with_patch":pf=="yes","existing_suite_passes_with_patch":suite=="yes","tests_passed_with_patch":int(npass or 0),
@@ -46,5 +47,5 @@ m["checks_run"]=checks.split()
 m["caught_by"]=caught.split()
 m["check_output"]=detail.strip().splitlines()
 json.dump(m,open(out,"w"),indent=1)
-print(f"RESULT {P}-{K}: clean_demo_ok={clean} patched_demo_fails={pf} suite_ok={suite}({npass}) caught_by=[{caught.strip()}]")
+print(f"RESULT {P}-{OUTK}: clean_demo_ok={clean} patched_demo_fails={pf} suite_ok={suite}({npass}) caught_by=[{caught.strip()}]")
 PY
